@@ -413,6 +413,29 @@ def wl_builder(rng, rec, tier):
         gen.attempt(H.build_mpo)
         fc = rng.integers(0, 2, size=H.nsites).astype(np.uint8)
         gen.attempt(H.flatconfig_coupling, fc)
+        if H.nsites <= 5 and rng.random() < 0.5:
+            # <psi|H|psi>/<psi|psi> through the configuration-space estimator
+            nn = H.nsites
+            psi = gen.rand_array(rng, (2 ** nn,), "complex128")
+
+            def amp(flatconfig):
+                return psi[int("".join(str(int(b)) for b in flatconfig), 2) if nn else 0]
+            got = gen.attempt2(H.evaluate_exact_flatconfigs, amp)
+            if got is not gen.REJECTED:
+                rec.busy = True
+                try:
+                    Href = state_of(H)[0]
+                finally:
+                    rec.busy = False
+                want = complex(np.vdot(psi, Href @ psi) / np.vdot(psi, psi))
+                sc = max(float(np.abs(Href).max()) if Href.size else 0.0, 1e-300)
+                try:
+                    err = abs(complex(got) - want)
+                except Exception:
+                    err = float("inf")
+                rec.check("builder", "exact_estimator", err <= 1e-9 * sc * 2 ** nn,
+                          mech="builder:evaluate_exact_flatconfigs", detail={"got": repr(got), "want": repr(want), "n": nn},
+                          sig=("evaluate_exact", nn))
 
     all_reps()
     # rewrites: toggling must keep every representation equal to the meaning
@@ -428,6 +451,20 @@ def wl_builder(rng, rec, tier):
         extra = rand_terms(rng, sites, jw)[0]
         gen.attempt(H.add_term, *([extra[0]] + list(extra[1])))
         all_reps()
+    else:
+        # cancel a term after building: add its exact negative (or subtract it)
+        try:
+            raw = list(H.terms_raw)
+        except Exception:
+            raw = []
+        if raw:
+            c, ops = raw[int(rng.integers(0, len(raw)))]
+            if rng.random() < 0.5:
+                gen.attempt(H.add_term, -c, *ops)
+            else:
+                gen.attempt(H.__isub__, (c, *ops))
+            desc["cancelled"] = True
+            all_reps()
     return desc
 
 
@@ -607,7 +644,7 @@ def wl_spin_chains(rng, rec, tier):
     from ..core import dense_of
     L = int(rng.integers(2, 7))
     cyclic = bool(rng.random() < 0.4) and L > 2
-    which = gen.choice(rng, ["heis", "ising", "XY", "mbl", "spinham", "heis_S1"])
+    which = gen.choice(rng, ["heis", "ising", "XY", "mbl", "spinham", "spinham", "heis_S1", "bilbiq", "zspin"])
     S = 0.5
     desc = {"L": L, "cyclic": cyclic, "which": which}
 
@@ -677,6 +714,47 @@ def wl_spin_chains(rng, rec, tier):
         lh = gen.attempt(qtn.ham_1d_mbl, L, dh=dh, seed=seed, cyclic=cyclic)
         if lh is not None:
             check("localham", localham_dense(lh), want)
+    elif which == "bilbiq":
+        # named model: sum_i cos(theta) S_i.S_{i+1} + sin(theta) (S_i.S_{i+1})^2
+        from quimb.tensor import tensor_builder as tb
+        S = float(gen.choice(rng, [0.5, 1.0]))
+        L = min(L, 4)
+        desc["L"] = L
+        dloc = int(2 * S + 1)
+        theta = float(np.round(rng.uniform(-3, 3), 3))
+        sp_ = [rl.dense(qu.spin_operator(a, S=S)) for a in "XYZ"]
+        SS = sum(np.kron(a, a) for a in sp_)
+        hb = np.cos(theta) * SS + np.sin(theta) * (SS @ SS)
+        want = np.zeros((dloc ** L, dloc ** L), dtype=complex)
+        bonds = [(i, i + 1) for i in range(L - 1)] + ([(L - 1, 0)] if cyclic else [])
+        for (i, jx) in bonds:
+            want += rl.embed(hb, [dloc] * L, [i, jx])
+        m = gen.attempt(tb.MPO_ham_bilinear_biquadratic, L, theta, S=S, cyclic=cyclic)
+        if m is not None:
+            check("mpo", mpo_dense(m), want)
+        lh = gen.attempt(tb.ham_1d_bilinear_biquadratic, L, theta, S=S, cyclic=cyclic)
+        if lh is not None:
+            check("localham", localham_dense(lh, dloc), want)
+    elif which == "zspin":
+        # projector onto a total S^z sector, S^z measured with the library's own
+        # spin operator: S^z_tot P = sz P, orthonormal columns, right size
+        import math
+        n = int(rng.integers(1, 8))
+        k = int(rng.integers(0, n + 1))
+        sz = k - n / 2
+        P = gen.attempt(qu.zspin_projector, n, sz)
+        if P is not None:
+            Pd = rl.dense(P)
+            szop = rl.dense(qu.spin_operator("z", S=0.5))
+            Sz = np.zeros((2 ** n, 2 ** n), dtype=complex)
+            for i in range(n):
+                Sz += rl.embed(szop, [2] * n, [i])
+            ok = Pd.shape == (2 ** n, math.comb(n, k)) and \
+                float(np.abs(Sz @ Pd - sz * Pd).max()) <= 1e-12 and \
+                float(np.abs(Pd.conj().T @ Pd - np.eye(Pd.shape[1])).max()) <= 1e-12
+            rec.check("chains", "sector_projector", ok, mech="chains:zspin_projector:wrong_sector",
+                      detail={"n": n, "sz": sz, "shape": list(Pd.shape)}, sig=("zspin", n, k))
+        desc.update(n=n, sz=sz)
     else:
         # SpinHam1D with custom, genuinely complex / asymmetric terms
         b = qtn.SpinHam1D(S=0.5, cyclic=cyclic)
@@ -708,6 +786,9 @@ def wl_spin_chains(rng, rec, tier):
         lh = gen.attempt(b.build_local_ham, L)
         if lh is not None:
             check("localham", localham_dense(lh), want)
+        sm = gen.attempt(b.build_sparse, L)
+        if sm is not None:
+            check("sparse", rl.dense(sm), want)
         desc["two"] = two
         desc["one"] = one
     return desc
